@@ -61,7 +61,7 @@ def run(rep, tier, seed):
     cases, info = [], {}
 
     def add(cid, main, files=None, graph=None, mainincs=None, **opts):
-        c = {"id": cid, "main": main.hex(), "files": {k: v.hex() for k, v in (files or {}).items()}, "timems": 15000,
+        c = {"id": cid, "main": main.hex(), "files": {k: v.hex() for k, v in (files or {}).items()}, "timems": opts.get("timems", 15000),
              "mode": opts.get("mode", rng.choice(["emacs", "vi", ""])), "term": rng.choice(["xterm", ""]), "app": rng.choice(["bash", ""]),
              "halt": rng.random() < 0.3, "strict": rng.random() < 0.3, "default": rng.random() < 0.5}
         cases.append(c)
@@ -88,10 +88,14 @@ def run(rep, tier, seed):
     rng.shuffle(graphs)
     ngraph = 1500 if tier == "quick" else 40000
     for gi, (m, a, b, c) in enumerate(graphs[:ngraph]):
-        g = {"A": list(a), "B": list(b), "C": list(c)}
-        files = {k: ("\n".join("$include " + x for x in v) + "\nset v%s 1\n" % k).encode() for k, v in g.items()}
-        main = ("\n".join("$include " + x for x in m) + "\n").encode()
-        add("g%d" % gi, main, files, graph=g, mainincs=list(m))
+        # one spelling of the file names per graph: plain, below the home directory (~/x is expanded before the file is
+        # asked for), relative, absolute
+        pre = rng.choice(["", "", "~/", "~/", "./", "/etc/", "~/d/"])
+        nm = lambda x: pre + x
+        g = {nm("A"): [nm(x) for x in a], nm("B"): [nm(x) for x in b], nm("C"): [nm(x) for x in c]}
+        files = {k: ("\n".join("$include " + x for x in v) + "\nset v%s 1\n" % k[-1]).encode() for k, v in g.items()}
+        main = ("\n".join("$include " + nm(x) for x in m) + "\n").encode()
+        add("g%d" % gi, main, files, graph=g, mainincs=[nm(x) for x in m], timems=4000)
     # (d) curated extremes
     deep = ("$if mode=emacs\n" * 3000 + "set x 1\n" + "$else\n$endif\n" * 3000).encode()
     extremes = [deep, b"$endif\n" * 1000, b"$else\n" * 1000, b"\x00" * 1000, b"set \n", b"set  \n", b"set", b"set x", b"set x ",
@@ -104,6 +108,7 @@ def run(rep, tier, seed):
             add("x%d.%d" % (ei, k), t)
     # self-include through the name the handler serves
     add("self1", b"$include SELF\n", {"SELF": b"$include SELF\n$include SELF\nset a 1\n"}, graph={"SELF": ["SELF", "SELF"]}, mainincs=["SELF"])
+    add("self3", b"$include ~/SELF\n", {"~/SELF": b"$include ~/SELF\nset a 1\n"}, graph={"~/SELF": ["~/SELF"]}, mainincs=["~/SELF"], timems=4000)
     add("self2", b"$include A\n", {"A": b"$include B\n", "B": b"$include A\n$include B\n"}, graph={"A": ["B"], "B": ["A", "B"]}, mainincs=["A"])
     log("C12: %d cases" % len(cases))
     bycase = run_harness("parse", cases, os.path.join(wd, "run"), timeout=3000)
@@ -114,6 +119,8 @@ def run(rep, tier, seed):
         evs = bycase.get(cid, [])
         res = [e for e in evs if e["ev"] in ("parsed", "panic", "timeout", "died")]
         if not res:
+            if "_skipped" in bycase:
+                continue        # shard abandoned after too many hangs / deaths (each of them is reported)
             raise Infra("no result for case " + cid)
         e = res[-1]
         raw = {"event": {k: v for k, v in e.items() if k not in ("stack", "calls")}, "input_head": bytes.fromhex(c["main"])[:300].decode("latin1")}
@@ -134,7 +141,7 @@ def run(rep, tier, seed):
     rep.traces = len(cases)
     rep.extra["outcomes"] = outcomes
     rep.samples = [{"input": bytes.fromhex(cases[i]["main"])[:200].decode("latin1"), "result": per[cases[i]["id"]][1][0]}
-                   for i in (0, len(cases) // 3, len(cases) - 3)]
+                   for i in (0, len(cases) // 3, len(cases) - 3) if cases[i]["id"] in per]
     rejected = validate_cases(rep, os.path.join(wd, "tv"), "ParseTrace", "ParseTrace.cfg", per, label="ParseTrace", max_rejects=8)
     kfs = open_findings("C12")
     for cid, (i, line, raw, viol) in rejected.items():
